@@ -1281,7 +1281,22 @@ pub fn run(cfg: &RunCfg, which: &str) -> Report {
             let before = view(&env);
             let op = if let Some(o) = queue.pop() { o } else { gen_op(&mut r, &env, &before, &mut ctx) };
             let epoch = before.epoch;
-            let b = build(&env, &op, epoch, &min_pc);
+            let mut b = build(&env, &op, epoch, &min_pc);
+            // fault plan: now and then the plain send of the market (burn / withdrawal payout) is made to fail
+            let fault = matches!(op, Op::Settle { .. } | Op::Terminate { .. } | Op::Cron { .. } | Op::Withdraw { .. })
+                && r.chance(1, 14);
+            if fault {
+                if let Some(prefix) = b.line.strip_suffix(" 1") {
+                    b.line = format!("{} 0", prefix);
+                }
+                env.w.vm.fault_plan.borrow_mut().rules.push(crate::vvm::FaultRule {
+                    from: Some(STORAGE_MARKET_ACTOR_ADDR.id().unwrap()),
+                    method: Some(METHOD_SEND),
+                    exit: 16,
+                    ..Default::default()
+                });
+                rep.branch("fault-injected");
+            }
             rep.op(op_name(&op));
             lines.push(b.line.clone());
             let replay_hdr = vec![
@@ -1301,6 +1316,7 @@ pub fn run(cfg: &RunCfg, which: &str) -> Report {
                     env.w.apply_raw(&b.from, &b.to, &b.value, b.method, b.params.clone())
                 }
             };
+            env.w.vm.fault_plan.borrow_mut().rules.clear();
             let traces = env.w.take_trace();
             let trace = traces.last();
             let after = view(&env);
